@@ -195,6 +195,8 @@ type storeDriver struct {
 	step    int
 	what    string
 	muts    int // acknowledged renames / deletes so far
+
+	timedOut bool // a worker command timed out (the worker is killed then)
 }
 
 type objRef struct {
@@ -224,11 +226,15 @@ func (d *storeDriver) wrap(err error) error {
 	if err == nil {
 		return nil
 	}
-	if errors.Is(err, sut.ErrWorkerDied) {
-		return fmt.Errorf("%s: server process died: %s", d.what, pt.CrashDetail(d.c))
-	}
 	if errors.Is(err, sut.ErrTimeout) {
+		d.timedOut = true // the client kills the worker after a timeout
 		return pt.Inconclusivef("%s: worker command timed out", d.what)
+	}
+	if errors.Is(err, sut.ErrWorkerDied) {
+		if d.timedOut {
+			return pt.Inconclusivef("%s: worker was killed after a command timeout", d.what)
+		}
+		return fmt.Errorf("%s: server process died: %s", d.what, pt.CrashDetail(d.c))
 	}
 	var ope *sut.OpError
 	if errors.As(err, &ope) && strings.HasPrefix(ope.Msg, "PANIC") {
